@@ -183,6 +183,7 @@ def check_c12(v: Verdict, t1_summary, n_unions, hash_seeds):
     hist = {"unions": 0, "orders": 0, "creation_ok": 0, "creation_refused": 0, "roundtrips": 0, "wrong_class": 0, "literal_discriminator_unions": 0,
             "with_init_false": 0, "with_none": 0, "f23_hits": 0, "hash_seeds_compared": 0, "minimal_payloads": 0}
     c12_rename_battery(v, hist)
+    c12_inheritance_battery(v, hist)
     for ui, u in enumerate(sig):
         specs = u["specs"]
         hist["unions"] += 1
@@ -341,3 +342,64 @@ def c12_rename_battery(v: Verdict, hist):
                             v.violation("disambiguation structured a payload as another class than the one it was unstructured from (renamed discriminating attribute)",
                                         {**desc, "instance": repr(inst), "payload": raw, "structured": repr(res)})
     hist["rename_battery_roundtrips"] = n
+
+
+def c12_inheritance_battery(v: Verdict, hist):
+    """systematic: members related by INHERITANCE (a subclass overriding the Literal discriminator of its parent, or adding attributes),
+    dataclasses and attrs classes, every member order, and two-step histories (the parent takes part in one union, the child in a later
+    one -- on the same and on another converter; anything a helper caches per class is shared by every converter of the process).
+    Fresh class objects per scenario.  A member's own payload must resolve to that member or be refused, never to another class."""
+    import itertools
+    from typing import Literal
+
+    def make(kind):
+        if kind == "dataclass":
+            Event = dataclasses.make_dataclass("IEvent", [("kind", Literal["event"]), ("id", int)])
+            Click = dataclasses.make_dataclass("IClick", [("kind", Literal["click"]), ("x", int, dataclasses.field(default=0))], bases=(Event,))
+            Tap = dataclasses.make_dataclass("ITap", [("kind", Literal["click", "tap"]), ("id", int)])
+            Base = dataclasses.make_dataclass("IBase", [("a", int)])
+            Child = dataclasses.make_dataclass("IChild", [("b", int)], bases=(Base,))
+            Other = dataclasses.make_dataclass("IOther", [("c", int)])
+        else:
+            Event = attrs.make_class("IEvent", {"kind": attrs.field(type=Literal["event"]), "id": attrs.field(type=int)})
+            Click = attrs.make_class("IClick", {"kind": attrs.field(type=Literal["click"]), "x": attrs.field(type=int, default=0)}, bases=(Event,))
+            Tap = attrs.make_class("ITap", {"kind": attrs.field(type=Literal["click", "tap"]), "id": attrs.field(type=int)})
+            Base = attrs.make_class("IBase", {"a": attrs.field(type=int)})
+            Child = attrs.make_class("IChild", {"b": attrs.field(type=int)}, bases=(Base,))
+            Other = attrs.make_class("IOther", {"c": attrs.field(type=int)})
+        lit = {"members": [Event, Click, Tap], "instances": lambda: [Event("event", 1), Click("click", 2, 3), Tap("tap", 4)]}
+        uniq = {"members": [Base, Child, Other], "instances": lambda: [Child(1, 2), Other(3)]}
+        return lit, uniq
+    n = 0
+    for kind in ("dataclass", "attrs"):
+        for which in (0, 1):
+            for perm in itertools.permutations(range(3)):
+                for history in ("none", "parent first, same converter", "parent first, another converter"):
+                    fam = make(kind)[which]
+                    members = fam["members"]
+                    conv = Converter()
+                    if history != "none":
+                        pre = conv if history.endswith("same converter") else Converter()
+                        try:
+                            pre.get_structure_hook(Union[members[0], members[2]])
+                        except Exception:      # noqa
+                            pass
+                    U = Union[tuple(members[i] for i in perm)]
+                    desc = {"lane": "DIS/C12 inheritance battery", "class_kind": kind, "family": "Literal discriminator overridden by a subclass" if which == 0 else "subclass adds an attribute",
+                            "member_order": [members[i].__name__ for i in perm], "history": history}
+                    try:
+                        conv.get_structure_hook(U)
+                    except Exception:      # noqa
+                        continue
+                    for inst in fam["instances"]():
+                        n += 1
+                        v.count(repr((desc, repr(inst))), True)
+                        payload = conv.unstructure(inst)
+                        try:
+                            back = conv.structure(payload, U)
+                        except Exception:      # noqa  (refusing is allowed)
+                            continue
+                        if type(back) is not type(inst):
+                            v.violation("automatic disambiguation structured a member's payload as another class",
+                                        {**desc, "instance": repr(inst), "payload": payload, "structured_as": repr(back)})
+    hist["inheritance_battery_checks"] = n
